@@ -58,6 +58,9 @@ pub struct RunResult {
 /// linear, so no operation that holds C17/C18 needs more; a corrupted 32-bit size field asks for
 /// far more on inputs of the sizes generated here.
 pub const ALLOC_BASE_BOUND: usize = 8 << 20;
+/// Repetitions that must all grow before steady growth counts as a leak: more than the 2 x 255
+/// index files one category of one repository can add to a handle's cache.
+pub const LEAK_CONFIRMATIONS: usize = 600;
 pub const ALLOC_FACTOR: usize = 1100;
 
 pub struct Harness {
@@ -269,10 +272,29 @@ impl Harness {
             }
             lives[k] = alloc::live_net();
         }
-        self.fs.pause_trace(false);
         let d1 = lives[2] - lives[1];
         let d2 = lives[3] - lives[2];
-        if d1 > 0 && d2 > 0 && d1 == d2 {
+        let mut leaking = d1 > 0 && d2 > 0 && d1 == d2;
+        if leaking {
+            // A handle that caches parsed index files may legitimately keep one more file per
+            // repetition when the fault schedule (which restarts with every repetition) lets
+            // each call get one file further. Such growth ends once the cache is full: a
+            // category has at most 255 chunks with two index files each. A leak never ends.
+            let mut last = lives[3];
+            for _ in 0..LEAK_CONFIRMATIONS {
+                self.fs.begin_op(op_id as usize, self.sub_seed(op_id), u64::MAX);
+                let r = monitor::guarded(|| f());
+                self.fs.end_op();
+                let now = alloc::live_net();
+                if r.is_err() || now - last <= 0 {
+                    leaking = false;
+                    break;
+                }
+                last = now;
+            }
+        }
+        self.fs.pause_trace(false);
+        if leaking {
             self.violate(
                 &format!("leak|{}|{}", entry, class),
                 format!(
